@@ -474,7 +474,7 @@ int Wave_Bank::find_duplicate(const Wave_Bank::Sample& header, const std::vector
 		// require that the looping part of the sample fit in the same bank.
 		if(   i.position + sample.size() <= rom_data.size()
 		   && i.loop_start <= header.loop_start
-		   && !memcmp(&sample[0], &rom_data[i.position], sample.size()))
+		   && std::equal(sample.begin(), sample.end(), rom_data.begin() + i.position))
 			return id;
 		id++;
 	}
